@@ -239,7 +239,7 @@ impl Property for C19 {
     }
 
     fn plan(&self, tier: Tier) -> Vec<Stage<Case>> {
-        vec![Stage::random("random", tier.pick(150_000, 3_000_000), || {
+        vec![Stage::random("random", tier.pick(500_000, 12_000_000), || {
             (1u8..=2, num_spec(), num_spec(), num_spec(), real_value(), proptest::collection::vec(num_spec(), 0..6), prop::bool::weighted(0.15)).prop_map(
                 |(kind, a, mut b, a_alt, f, seq, equal)| {
                     if equal {
@@ -256,7 +256,7 @@ impl Property for C19 {
     }
 
     fn floors(&self, tier: Tier) -> Vec<Floor> {
-        let n = tier.pick(150_000u64, 3_000_000);
+        let n = tier.pick(500_000u64, 12_000_000);
         vec![
             Floor { label: "signs:a+b+", min: n * 15 / 100 },
             Floor { label: "signs:a-b+", min: n * 15 / 100 },
